@@ -362,7 +362,7 @@ WEIGHTS = {"add_slide": 5, "add_shape": 6, "add_textbox": 4, "add_connector": 3,
 def jobs(tier):
     from vlib.corpus import corpus_decks
     decks = corpus_decks()
-    return [{"shard": i, "n": 500 if tier == "thorough" else 30, "max_ops": 60 if tier == "thorough" else 25,
+    return [{"shard": i, "n": 500 if tier == "thorough" else 90, "max_ops": 60 if tier == "thorough" else 25,
              "decks": decks[i::16] if tier == "thorough" else decks[i::16][:1]} for i in range(16)]
 
 
